@@ -160,7 +160,8 @@ def parse_tla_set_of_notes(out):
 
 
 MODULE_CONSTS = {"ApiTotalTrace": "  Full = TRUE\n", "LockTrace": "  DB <- TraceDBs\n",
-                 "CodecTrace": "  Pairs = FALSE\n  HugeSizes = FALSE\n"}
+                 "CodecTrace": "  Pairs = FALSE\n  HugeSizes = FALSE\n",
+                 "CommitTrace": "  MaxTx = 3\n  MaxRecs = 200\n  Cap = 100000\n  Sw = {\"SyncFaultOnMark\"}\n"}
 
 
 def tlc_trace(trace_path, dev=(), module="NutsTrace", diag_line=0, timeout=900, heap="3g", sdir=None, extra_consts=""):
@@ -342,12 +343,15 @@ def drive_and_validate(res, shards, dev, what, family_desc, rerun=True):
         os.makedirs(tmp, exist_ok=True)
         binary, args_, mydev, module = "drive", list(args), dev, "NutsTrace"
         conc = False
+        proto = False
         while args_ and args_[0][0] in "@#%":
             if args_[0].startswith("@"):
                 binary = args_[0][1:]
             elif args_[0].startswith("%conc"):   # concurrent run: race-instrumented binary, lock stream, no re-execution
                 conc = True
                 binary = "drive-race"
+            elif args_[0].startswith("%proto"):  # also record and validate the protocol-grain streams (CommitTrace)
+                proto = True
             elif args_[0].startswith("%"):   # "%mod=<trace module>"
                 module = args_[0][5:]
             else:   # "#dev=F-a,F-b": the deviations that apply to this kind of trace
@@ -357,11 +361,19 @@ def drive_and_validate(res, shards, dev, what, family_desc, rerun=True):
         racelog = os.path.join(work, "race%d-%d" % (i, attempt))
         if conc:
             env = dict(os.environ, GORACE="log_path=%s halt_on_error=0 exitcode=0 history_size=2" % racelog)
-        drive(args_ + ["-out", out, "-summary", summ, "-tmp", tmp], binary=binary, env=env)
+        drive(args_ + (["-proto"] if proto else []) + ["-out", out, "-summary", summ, "-tmp", tmp], binary=binary, env=env)
         shutil.rmtree(tmp, ignore_errors=True)
         with open(summ) as f:
             s = json.load(f)
         rs = [{"i": i, "args": args, "trace": out, "summary": s, "tlc": validate(out, module, mydev), "conc": conc}]
+        if proto:
+            for i, so in ((0, "FALSE"), (1, "TRUE")):
+                pp = "%s.proto%d" % (out, i)
+                if os.path.exists(pp):
+                    rp = tlc_trace(pp, dev=(), sdir=sdir, module="CommitTrace", extra_consts="  SyncOn = %s\n" % so)
+                    rp["module"], rp["ideal_accepted"] = "CommitTrace", rp["accepted"]
+                    rs.append({"i": i, "args": args, "trace": pp, "summary": {"histories": 0, "by_op": {}, "nontrivial": {"protocol_events": rp["total"]}},
+                               "tlc": rp, "conc": False, "proto": i})
         if conc and os.path.exists(out + ".lock"):
             # race-detector reports become events of the lock stream: an extra
             # event source for code the access hooks do not cover
@@ -410,14 +422,15 @@ def drive_and_validate(res, shards, dev, what, family_desc, rerun=True):
                 r2, t2, bad2 = r, t, bad
             else:
                 # re-execute the same seed: a rejection must reproduce
-                r2 = [x for x in one(r["i"], r["args"], attempt=1) if x["tlc"]["module"] == t["module"]][0]
+                r2 = [x for x in one(r["i"], r["args"], attempt=1) if x["tlc"]["module"] == t["module"] and x.get("proto") == r.get("proto")][0]
                 t2 = r2["tlc"]
                 if t2["accepted"]:
                     raise Infra("rejection at line %d of %s did not reproduce on re-execution" % (bad, r["trace"]))
                 bad2 = t2["reached"] + 1
             first, last = history_bounds(r2["trace"], bad2)
             first = max(first, bad2 - 400)
-            diag = tlc_trace(r2["trace"], dev=(), diag_line=min(bad2, r2["tlc"].get("ideal_reached", bad2 - 1) + 1), sdir=sdir, module=t2.get("module", "NutsTrace"))
+            xc = ("  SyncOn = %s\n" % ("TRUE" if r2.get("proto") else "FALSE")) if t2.get("module") == "CommitTrace" else ""
+            diag = tlc_trace(r2["trace"], dev=(), diag_line=min(bad2, r2["tlc"].get("ideal_reached", bad2 - 1) + 1), sdir=sdir, module=t2.get("module", "NutsTrace"), extra_consts=xc)
             res.violation("%s: event at trace line %d is not a step of the specification" % (what, bad2), {
                 "driver_args": r["args"], "rejected_line": bad2,
                 "rejected_event": read_lines(r2["trace"], bad2, bad2),
